@@ -136,11 +136,13 @@ Speed(c, up) ==
 
 (* C14  qartod.location_test                                               *)
 (* p = [bbox |-> <<>> (default: whole globe) | <<minx,miny,maxx,maxy>>,    *)
-(*      rmax |-> <<>> | rational metres]                                   *)
+(*      rmax |-> <<>> | rational metres,                                   *)
+(*      shapes |-> "same" | "differ" (the two arrays hold the same number  *)
+(*      of elements but are shaped differently, e.g. (1,n) against (n,))]  *)
 Location(c, up) ==
     LET n  == Len(c.lon)
         bb == IF c.p.bbox = <<>> THEN << -360, -180, 360, 180 >> ELSE c.p.bbox
-    IN  IF Len(c.lat) # n \/ Len(bb) # 4
+    IN  IF Len(c.lat) # n \/ Len(bb) # 4 \/ c.p.shapes = "differ"
         THEN Raises("any")
         ELSE Ok([i \in 1..n |->
                  IF BothMiss(c, i) THEN {MISSING}
